@@ -3,6 +3,7 @@ package main
 
 import (
 	"os"
+	"strings"
 
 	log "github.com/sirupsen/logrus"
 )
@@ -10,6 +11,10 @@ import (
 func main() {
 	log.SetLevel(log.PanicLevel)
 	log.SetOutput(os.Stderr)
+	if len(os.Args) > 2 && os.Args[1] == "worker" && strings.HasPrefix(os.Args[2], "meta") {
+		metaWorkerMain(os.Args[2:])
+		return
+	}
 	if len(os.Args) > 1 && os.Args[1] == "worker" {
 		workerMain(os.Args[2:])
 		return
